@@ -7,7 +7,8 @@ src = json.load(open(os.path.join(V, "tools", "manifest_src.json")))
 ids = [json.loads(l)["id"] for l in open(os.path.join(V, "properties.jsonl"))]
 checks, na = [], []
 for pid in ids:
-    c = src["claims"].get(pid)
+    pp = os.path.join(V, "tools", "props", pid + ".json")
+    c = (json.load(open(pp)).get("claim") if os.path.exists(pp) else None) or src["claims"].get(pid)
     if c and c.get("claimed"):
         checks.append({
             "property_id": pid,
@@ -31,5 +32,7 @@ m = {
     "notes": src.get("notes", ""),
     "not_applicable": na,
 }
+for e in m["engines"]:
+    e["serves_properties"] = [c["property_id"] for c in checks]
 json.dump(m, open(os.path.join(V, "MANIFEST.json"), "w"), indent=1, ensure_ascii=False)
 print(f"claimed {len(checks)}, not claimed {len(na)}")
